@@ -29,7 +29,34 @@ mod freeradius;
 #[cfg(feature = "extern-freeradius-module")]
 mod glue;
 
-#[cfg(any(test, feature = "extern-freeradius-module"))]
+#[cfg(any(test, feature = "extern-freeradius-module", feature = "verif-hooks"))]
+#[cfg_attr(feature = "verif-hooks", allow(dead_code))]
 pub(crate) mod error;
-#[cfg(any(test, feature = "extern-freeradius-module"))]
+#[cfg(any(test, feature = "extern-freeradius-module", feature = "verif-hooks"))]
+#[cfg_attr(feature = "verif-hooks", allow(dead_code))]
 pub(crate) mod logic;
+
+/// Verification harness access to the authorisation decision of the module.
+#[cfg(feature = "verif-hooks")]
+pub mod verif_hooks {
+    use crate::logic::Module;
+    use kanidm_proto::internal::Group;
+    use rlm_kanidm_shared::config::KanidmRadiusConfig;
+
+    pub struct VerifModule(Module);
+
+    impl VerifModule {
+        pub async fn from_config(cfg: KanidmRadiusConfig) -> Result<Self, String> {
+            Module::from_config(cfg)
+                .await
+                .map(VerifModule)
+                .map_err(|e| format!("{e:?}"))
+        }
+
+        /// (is the user in a required group, the VLAN the module would return) for a user
+        /// whose RADIUS token lists `groups`
+        pub fn decide(&self, groups: &[Group]) -> (bool, u32) {
+            self.0.verif_decide(groups)
+        }
+    }
+}
